@@ -94,6 +94,9 @@ def src(e):
     if t == "call":
         args = [src(a) for a in e[2]] + [k + "=" + src(v) for k, v in e[3]]
         return e[1] + "(" + ", ".join(args) + ")"
+    if t == "xcall":        # ("xcall", recv|None, name, [(kind, key|None, expr)..])  kind: pos kw psplat ksplat
+        args = [{"pos": "", "kw": (k or "") + "=", "psplat": "*", "ksplat": "**"}[kd] + src(x) for kd, k, x in e[3]]
+        return (("(" + src(e[1]) + ")|") if e[1] is not None else "") + e[2] + "(" + ", ".join(args) + ")"
     raise ValueError(t)
 
 
@@ -132,6 +135,10 @@ def kids(e):
     if t == "call":
         na = len(e[2])
         return list(e[2]) + [v for _, v in e[3]], lambda c: ("call", e[1], list(c[:na]), [(k, c[na + i]) for i, (k, _) in enumerate(e[3])])
+    if t == "xcall":
+        off = 0 if e[1] is None else 1
+        return ([] if e[1] is None else [e[1]]) + [x for _, _, x in e[3]], \
+            lambda c: ("xcall", None if e[1] is None else c[0], e[2], [(kd, k, c[off + i]) for i, (kd, k, _) in enumerate(e[3])])
     raise ValueError(t)
 
 
@@ -208,6 +215,30 @@ def canon(e):
     if e[0] == "test" and e[4]:
         return ("not", ("test", e[1], e[2], e[3], False))
     return e
+
+
+def from_parsed_d(j):
+    """parser AST -> part D AST (calls keep the order of their arguments, splats included)"""
+    k, f = j["expr"], j["inner"][0]
+    if k in ("Call", "Filter"):
+        args = []
+        for a in f["args"]:
+            if "Pos" in a: args.append(("pos", None, from_parsed_d(a["Pos"])))
+            elif "Kwarg" in a: args.append(("kw", a["Kwarg"][0], from_parsed_d(a["Kwarg"][1])))
+            elif "PosSplat" in a: args.append(("psplat", None, from_parsed_d(a["PosSplat"])))
+            else: args.append(("ksplat", None, from_parsed_d(a["KwargSplat"])))
+        if k == "Filter": return ("xcall", from_parsed_d(f["expr"]), f["name"], args)
+        return ("xcall", None, from_parsed_d(f["expr"])[1], args)
+    if k in ("List", "Tuple"): return (k.lower(), [from_parsed_d(x) for x in f["items"]])
+    if k == "Map": return ("map", [(from_parsed_d(a), from_parsed_d(b)) for a, b in zip(f["keys"], f["values"])])
+    return from_parsed(j)
+
+
+def printer_ok_d(e, item):
+    try:
+        return from_parsed_d(json.loads(item["ast_json"])) == e
+    except Exception:
+        return False
 
 
 def printer_ok(e, item):
@@ -617,6 +648,241 @@ def model_norm(out):
 
 
 # ---------------------------------------------------------------------------------------------
+# part D: collections and call arguments against C04/Coll.v (runner c04-coll)
+# ---------------------------------------------------------------------------------------------
+D_FUNCS = {"cargs": 50, "cfilt": 51}
+D_KIND = {"pos": 0, "kw": 1, "psplat": 2, "ksplat": 3}
+D_RHO = {"ci": 5, "cs": "ctx", "cl": [1, 2, 3], "cm": {"a": 1, "z": "q"}}
+
+
+class GenD:
+    def __init__(self, rng):
+        self.r = rng
+
+    def atom(self):
+        r = self.r
+        c = r.below(6)
+        if c <= 1: return ("int", r.choice([0, 1, 2, 3, 7, 255, 2 ** 63, 2 ** 64 + 1]))
+        if c <= 3: return ("str", r.choice(["", "a", "b", "ab", "A", "z", "é", "0"]))
+        if c == 4: return ("bool", r.chance(1, 2))
+        return ("none",)
+
+    def key(self):
+        r = self.r
+        c = r.below(8)
+        if c <= 2: return ("str", r.choice(["a", "b", "c", "z", "", "B"]))
+        if c <= 4: return ("int", r.choice([0, 1, 2, 10]))
+        if c == 5: return ("bool", r.chance(1, 2))
+        if c == 6: return ("none",)
+        return ("var", r.choice(["ci", "cs"]))
+
+    def gen(self, d):
+        r = self.r
+        if d <= 0 or r.chance(1, 4):
+            if r.chance(1, 6): return ("var", r.choice(["ci", "cs", "cl", "cm", "u"]))
+            return self.atom()
+        c = r.below(10)
+        if c <= 1: return ("list", [self.gen(d - 1) if r.chance(1, 3) else self.atom() for _ in range(r.below(4))])
+        if c <= 3: return ("tuple", [self.gen(d - 1) if r.chance(1, 3) else self.atom() for _ in range(r.below(4))])
+        if c <= 5: return ("map", [(self.key(), self.gen(d - 1) if r.chance(1, 3) else self.atom()) for _ in range(r.below(4))])
+        return self.call(d)
+
+    def splat_operand(self, d, kw):
+        r = self.r
+        c = r.below(8)
+        if kw:
+            if c <= 2: return ("var", "cm")
+            if c <= 5: return ("map", [(("str", r.choice(["a", "b", "k"])), self.atom()) for _ in range(r.below(3))])
+            if c == 6: return ("var", "cl")                       # not a map: rejected
+            return ("int", 5)
+        if c <= 1: return ("var", "cl")
+        if c <= 3: return ("list", [self.atom() for _ in range(r.below(3))])
+        if c == 4: return ("tuple", [self.atom() for _ in range(r.below(3))])
+        if c == 5: return ("var", "cm")                           # a map splices its keys
+        if c == 6: return ("map", [(("str", r.choice(["a", "b"])), self.atom()) for _ in range(r.below(3))])
+        return ("int", 5)                                          # not iterable: rejected
+
+    def call(self, d):
+        r = self.r
+        args = []
+        for _ in range(r.below(4)):
+            if r.chance(1, 4): args.append(("psplat", None, self.splat_operand(d - 1, False)))
+            else: args.append(("pos", None, self.gen(d - 1) if r.chance(1, 2) else self.atom()))
+        for _ in range(r.below(4)):
+            if r.chance(1, 5): args.append(("ksplat", None, self.splat_operand(d - 1, True)))
+            else:
+                v = self.atom() if r.chance(3, 4) else self.gen(d - 1)
+                args.append(("kw", r.choice(["a", "b", "c", "a"]), v))
+        if args and r.chance(1, 10):
+            args.append(("psplat", None, self.splat_operand(d - 1, False)))     # `*x` after a keyword argument is accepted by the parser
+        if r.chance(1, 3):
+            return ("xcall", self.gen(d - 1) if r.chance(1, 2) else self.atom(), "cfilt", args)
+        return ("xcall", None, "cargs", args)
+
+
+def d_enc_expr(e, N):
+    t = e[0]
+    if t == "int": return [0, e[1]]
+    if t == "str": return [1] + langenc.s_enc(e[1])
+    if t == "bool": return [2, 1 if e[1] else 0]
+    if t == "none": return [3]
+    if t == "var": return [4, N.id(e[1])]
+    if t == "list": return [5, len(e[1])] + sum((d_enc_expr(x, N) for x in e[1]), [])
+    if t == "tuple": return [6, len(e[1])] + sum((d_enc_expr(x, N) for x in e[1]), [])
+    if t == "map": return [7, len(e[1])] + sum((d_enc_expr(k, N) + d_enc_expr(v, N) for k, v in e[1]), [])
+    if t == "xcall":
+        out = [8] + ([0] if e[1] is None else [1] + d_enc_expr(e[1], N)) + [D_FUNCS[e[2]], len(e[3])]
+        for kd, k, x in e[3]:
+            out += [D_KIND[kd]] + (langenc.s_enc(k) if kd == "kw" else []) + d_enc_expr(x, N)
+        return out + [0]
+    raise ValueError(t)
+
+
+def d_enc_val(v):
+    if v is None: return [1]
+    if isinstance(v, bool): return [2, 1 if v else 0]
+    if isinstance(v, int): return [3, v]
+    if isinstance(v, str): return [4] + langenc.s_enc(v)
+    if isinstance(v, list): return [5, len(v)] + sum((d_enc_val(x) for x in v), [])
+    if isinstance(v, dict): return [11, len(v)] + sum((d_enc_val(k) + d_enc_val(x) for k, x in v.items()), [])
+    raise ValueError(v)
+
+
+def d_tv(v):
+    if isinstance(v, dict): return {"t": "map", "v": [[tv_py(k), d_tv(x)] for k, x in v.items()]}
+    if isinstance(v, list): return {"t": "list", "v": [d_tv(x) for x in v]}
+    return tv_py(v)
+
+
+def d_parse_val(toks, i):
+    """model value tokens -> tree"""
+    t = toks[i]
+    if t == 0: return ("undef",), i + 1
+    if t == 1: return ("none",), i + 1
+    if t == 2: return ("bool", toks[i + 1] != 0), i + 2
+    if t == 3: return ("int", toks[i + 1]), i + 2
+    if t == 4:
+        n = toks[i + 1]
+        return ("str", "".join(chr(c) for c in toks[i + 2:i + 2 + n])), i + 2 + n
+    if t in (5, 10):
+        n, j, items = toks[i + 1], i + 2, []
+        for _ in range(n):
+            v, j = d_parse_val(toks, j)
+            items.append(v)
+        return ("list" if t == 5 else "tuple", items), j
+    if t in (11, 12):
+        n, j, items = toks[i + 1], i + 2, []
+        for _ in range(n):
+            k, j = d_parse_val(toks, j)
+            v, j = d_parse_val(toks, j)
+            items.append((k, v))
+        return ("map" if t == 11 else "kwargs", items), j
+    if t == 13:
+        f, n, j, items = toks[i + 1], toks[i + 2], i + 3, []
+        for _ in range(n):
+            v, j = d_parse_val(toks, j)
+            items.append(v)
+        return ("res", f, items), j
+    if t == 14: return ("macro", toks[i + 1]), i + 2
+    raise ValueError(toks[i:i + 5])
+
+
+def d_sv_tree(sv):
+    k = sv.get("k")
+    if k == "undef": return ("undef",)
+    if k == "none": return ("none",)
+    if k == "bool": return ("bool", bool(sv["v"]))
+    if k == "int": return ("int", int(sv["v"]))
+    if k == "str": return ("str", sv["v"])
+    if k in ("seq", "iter"): return ("list", [d_sv_tree(x) for x in sv["v"]])
+    if k == "tuple": return ("tuple", [d_sv_tree(x) for x in sv["v"]])
+    if k in ("map", "kwargs"): return (k, [(d_sv_tree(a), d_sv_tree(b)) for a, b in sv["v"]])
+    return ("other", json.dumps(sv)[:60])
+
+
+def d_probe_view(t):
+    """a model value as the engine's probes show it: a call result is [positional, keyword map]"""
+    k = t[0]
+    if k in ("list", "tuple"): return (k, [d_probe_view(x) for x in t[1]])
+    if k in ("map", "kwargs"): return (k, [(d_probe_view(a), d_probe_view(b)) for a, b in t[1]])
+    if k == "res":
+        args = list(t[2])
+        kw = []
+        if args and args[-1][0] == "kwargs":
+            kw = args.pop()[1]
+        return ("list", [("list", [d_probe_view(x) for x in args]), ("map", [(d_probe_view(a), d_probe_view(b)) for a, b in kw])])
+    return t
+
+
+def d_tree_toks(t):
+    k = t[0]
+    if k == "undef": return [0]
+    if k == "none": return [1]
+    if k == "bool": return [2, 1 if t[1] else 0]
+    if k == "int": return [3, t[1]]
+    if k == "str": return [4, len(t[1])] + [ord(c) for c in t[1]]
+    if k in ("list", "tuple"): return [5 if k == "list" else 10, len(t[1])] + sum((d_tree_toks(x) for x in t[1]), [])
+    if k in ("map", "kwargs"): return [11 if k == "map" else 12, len(t[1])] + sum((d_tree_toks(a) + d_tree_toks(b) for a, b in t[1]), [])
+    return ["other"]
+
+
+D_OPS = {"BuildList": 3, "BuildTuple": 4, "BuildMap": 5, "BuildKwargs": 6, "MergeKwargs": 7, "UnpackLists": 8}
+
+
+def d_engine_code(code, N):
+    """the engine's instruction listing of `{{ E }}` in the token form of runner c04-coll"""
+    out = []
+    for op, arg in code:
+        if op == "Emit": break
+        if op == "LoadConst": out += [1] + d_tree_toks(d_sv_tree(arg))
+        elif op == "Lookup": out += [2, N.id(arg)]
+        elif op in D_OPS: out += [D_OPS[op], arg if isinstance(arg, int) else "none"]
+        elif op in ("CallFunction", "ApplyFilter"): out += [9, D_FUNCS.get(arg[0], "f:" + str(arg[0])), 0 if arg[1] is None else arg[1] + 1]
+        else: out += ["op:" + op]
+    return out
+
+
+def d_case(e, rho_py):
+    N = langenc.Names()
+    toks = [len(rho_py)]
+    for n in sorted(rho_py):
+        toks += [N.id(n)] + d_enc_val(rho_py[n])
+    return toks + d_enc_expr(e, N), N
+
+
+def d_split(out):
+    """runner output -> (code tokens, run result tokens, ceval result tokens)"""
+    n = out[0]
+    code = out[1:1 + n]
+    m = out[1 + n]
+    return code, out[2 + n:2 + n + m], out[2 + n + m:]
+
+
+def d_check(e, rho_py, item, mout):
+    """None if engine and model agree on this expression, else a description"""
+    if not mout or mout == [9] or mout[0] == "CRASH":
+        return "model could not decode / crashed: %r" % (mout[:6],)
+    mcode, mrun, mceval = d_split(mout)
+    N = d_case(e, rho_py)[1]
+    if "code" not in item:
+        return "engine did not load: %r" % (item.get("load"),)
+    ecode = d_engine_code(item["code"], N)
+    if ecode != mcode:
+        return "instruction streams differ: engine %r model %r" % (ecode, mcode)
+    ev = item.get("eval") or {}
+    if mrun[:1] == [0]:
+        want = d_probe_view(d_parse_val(mrun, 1)[0])
+        got = d_sv_tree(ev["ok"]) if "ok" in ev else ("error", ev.get("err"))
+        if got != want:
+            return "values differ: engine %r model %r" % (got, want)
+    elif "ok" in ev:
+        return "the model's VM fails, the engine yields %r" % (d_sv_tree(ev["ok"]),)
+    if mrun != mceval:
+        return "model VM and reference semantics differ: %r vs %r" % (mrun, mceval)
+    return None
+
+
+# ---------------------------------------------------------------------------------------------
 # running the harness (several processes)
 # ---------------------------------------------------------------------------------------------
 def run_c04(reqs, release=False, workers=12):
@@ -784,6 +1050,7 @@ def main():
         "part C ties C04/Model.v::as_const to ast.rs::as_const on generated core-fragment expressions only (fold status, folded value, run-time value); Lang/Interp.v is the specification of run-time evaluation; tools/langenc.py + Lang/Codec.v are unverified glue"]
     chk.assumptions = [
         "part A: expressions over the literal syntax (unary, + - * / // % **, ~, comparison chains, and/or/not, in / not in, lists, tuples, maps, negated literals, if-expressions, subscripts, slices, filters and functions with literal keyword arguments, macro calls with keyword arguments, tests); ints from a boundary pool up to 2^128-1, floats by bit pattern (no NaN/inf literals exist), short strings; <= 6 literals: every subset hoisted; 4 undefined behaviours",
+        "part D: collection literals (lists, tuples, maps with int/str/bool/none keys incl. duplicates) and calls of two probe callables (function `cargs`, filter `cfilt`: they return what they were given) with positional, keyword, `*x` and `**m` arguments, duplicate keywords, literal and hoisted values; BTreeMap build of the engine (no preserve_order)",
         "part C: core fragment of Lang/Interp.v (unbounded ints represented up to i128, ASCII strings, bools, none, lists; typed so that operators meet the operand kinds the reference evaluator models)",
         "a value is 'the same' when it is built from the literal's text exactly like the parser's constant (u64 if it fits, else u128; negated units: i64 if it fits, else i128)"]
     okm, blog = build_models("C04")
@@ -1080,24 +1347,105 @@ def main():
             rep["theorem_or_correspondence"] = "C04/Model.v::as_const vs compiler/ast.rs::as_const / Lang/Interp.v vs vm"
             chk.violation("model and engine disagree on a core-fragment expression", rep, True)
 
+    # ---------------- part D -------------------------------------------------------------------
+    dexprs = []
+    if chk.replay:
+        rp = json.load(open(chk.replay))["replay"]
+        if "coll_ast" in rp:
+            dexprs.append(eval(rp["coll_ast"]))
+    else:
+        gd = GenD(chk.rng)
+        k_ = lambda s_: ("str", s_)
+        for sd in [("map", [(k_("b"), ("int", 1)), (k_("a"), ("int", 2)), (k_("b"), ("int", 3))]), ("map", [(("bool", True), ("int", 1)), (("int", 1), ("int", 2))]),
+                   ("tuple", [("int", 1)]), ("tuple", []), ("list", [("tuple", [("int", 1), ("int", 2), ("int", 3)])]),
+                   ("xcall", None, "cargs", [("pos", None, ("int", 1)), ("kw", "a", ("int", 2)), ("kw", "b", ("int", 3)), ("kw", "a", ("int", 4))]),
+                   ("xcall", None, "cargs", [("psplat", None, ("list", [("int", 1), ("int", 2)])), ("pos", None, ("int", 3)), ("ksplat", None, ("var", "cm")), ("kw", "c", ("int", 4))]),
+                   ("xcall", ("int", 5), "cfilt", [("kw", "a", ("int", 1)), ("psplat", None, ("var", "cl"))]),
+                   ("xcall", None, "cargs", [("kw", "a", ("var", "u"))]), ("xcall", None, "cargs", [("ksplat", None, ("int", 5))])]:
+            dexprs.append(sd)
+        nd = 40000 if chk.thorough else 2500
+        while len(dexprs) < nd:
+            e = gd.gen(1 + chk.rng.below(3))
+            if count_nodes(e) < 2:
+                continue
+            dexprs.append(e)
+    dreqs, dcases, dmeta = [], [], []
+    for e in dexprs:
+        k = count_atoms(e)
+        full, hctx = hoist_atoms(e, set(range(k)))
+        for form, rho_py in ((e, dict(D_RHO)), (full, dict(D_RHO, **{n: py_tv(v) for n, v in hctx.items()}))):
+            dreqs.append({"undefined": "lenient", "items": [{"expr": src(form), "ctx": {n: d_tv(v) for n, v in rho_py.items()}, "code": True, "ast": True}]})
+            dcases.append(d_case(form, rho_py)[0])
+            dmeta.append((form, rho_py))
+    dmodel = run_model("C04", "c04-coll", dcases) if dcases else []
+    bad_d = []
+    for rel in (False, True):
+        dresp = run_c04(dreqs, release=rel)
+        for i, ((form, rho_py), r) in enumerate(zip(dmeta, dresp)):
+            item = ((r or {}).get("items") or [{}])[0]
+            why = d_check(form, rho_py, item, dmodel[i])
+            if why:
+                bad_d.append((i, rel, why))
+            elif not rel:
+                hist["partD_" + ("folded" if item.get("ops") == ["LoadConst", "Emit"] else "kwargs_static" if any(c[0] == "LoadConst" and isinstance(c[1], dict) and c[1].get("k") == "kwargs" for c in item.get("code", [])) else "other")] += 1
+                hist["partD_eval_" + ("ok" if "ok" in (item.get("eval") or {}) else "err")] += 1
+                if not printer_ok_d(form, item):
+                    printer_bad.append(src(form))
+    seen_d = set()
+    for i, rel, why in sorted(bad_d, key=lambda b: len(src(dmeta[b[0]][0])))[:3]:
+        form, rho_py = dmeta[i]
+        # smallest sub-expression that still disagrees
+        cur, progress = form, True
+        def dis_d(x):
+            it = ((run_c04([{"undefined": "lenient", "items": [{"expr": src(x), "ctx": {n: d_tv(v) for n, v in rho_py.items()}, "code": True}]}], rel)[0] or {}).get("items") or [{}])[0]
+            mo = run_model("C04", "c04-coll", [d_case(x, rho_py)[0]])[0]
+            return d_check(x, rho_py, it, mo)
+        while progress:
+            progress = False
+            for k in kids(cur)[0]:
+                w2 = dis_d(k)
+                if w2:
+                    cur, why, progress = k, w2, True
+                    break
+        if src(cur) in seen_d:
+            continue
+        seen_d.add(src(cur))
+        # is it a failing input of the property itself (literal vs hoisted form on the engine)?
+        rep = {"template": "{{ " + src(cur) + " }}", "context": rho_py, "profile": "release" if rel else "debug", "disagreement": why[:600], "coll_ast": repr(cur)}
+        vs = variants_of(cur) if count_atoms(cur) else None
+        b = []
+        if vs:
+            rq = {"undefined": "lenient", "items": [{"expr": src(v[1]), "ctx": dict({n: d_tv(x) for n, x in rho_py.items()}, **v[2])} for v in vs]}
+            rr = run_c04_robust([rq], rel)[0]
+            b = disagreements(vs, rr)
+        if b:
+            rep["template_hoisted"] = "{{ " + src(vs[b[0][1]][1]) + " }}"
+            rep["variant_disagreeing"] = vs[b[0][1]][0]
+            chk.violation("a folded collection / statically collected keyword map differs from what the run-time constructor builds", rep)
+        else:
+            rep["theorem_or_correspondence"] = "C04/Coll.v (as_const of List/Tuple/Map, compile_call_args, Build*/MergeKwargs/UnpackLists) vs ast.rs / codegen.rs / vm"
+            chk.violation("model and engine disagree on a collection literal or a call's arguments", rep, True)
+
     if bad_sub and not chk.violations:
         i, rel, s_, ops, ms = min(bad_sub, key=lambda b: len(b[2]))
         chk.violation("the engine folds sub-expressions differently from the model (fold_sub)",
                       {"theorem_or_correspondence": "C04/Model.v::fold_sub vs codegen.rs::compile_expr (recursive as_const)", "template": "{{ " + s_ + " }}",
                        "engine_ops": ops, "model_loadconst_lookup": ms, "profile": "release" if rel else "debug", "lang_ast": repr(lexprs[i][0])}, True)
-    chk.cov["evaluations"] = 2 * (nvariants + 2 * len(lexprs)) + nb
+    chk.cov["evaluations"] = 2 * (nvariants + 2 * len(lexprs) + len(dmeta)) + nb
     chk.cov["distinct_nontrivial"] = len(nontriv)
     chk.cov["rule"] = ("part A: generated expressions x EVERY subset of their literal positions hoisted into typed context variables (+ whole literal units), each variant loaded, rendered as `{{ E }}` and `{{ [E] }}` and evaluated through compile_expression, debug and release; "
                        "non-trivial = distinct (expression, undefined behaviour) with >= 2 literals and >= 4 variants whose literal form loads; "
-                       "part B: failing constant expressions x 9 never-executed + 7 executed positions; part C: core-fragment expressions, engine fold status / folded value / run-time value vs extracted as_const + reference evaluator, literal and fully hoisted form")
+                       "part B: failing constant expressions x 9 never-executed + 7 executed positions; part C: core-fragment expressions, engine fold status / folded value / run-time value vs extracted as_const + reference evaluator, literal and fully hoisted form; "
+                       "part D: collection literals and probe calls, literal and fully hoisted form: the engine's instruction stream of `{{ E }}` (opcodes, counts, constants incl. statically collected keyword maps) and its value vs the extracted model of as_const / compile_call_args / Build* (C04/Coll.v) and its reference semantics")
     chk.cov["samples"] = ["{{ " + src(exprs[i][0]) + " }}" for i in (0, len(exprs) // 3, 2 * len(exprs) // 3, len(exprs) - 1) if exprs] + \
                          ["{{ " + src(lexprs[i][0]) + " }}" for i in (len(lexprs) // 2, len(lexprs) - 1) if lexprs]
     chk.cov["distribution"] = {"outcomes": dict(hist), "constructs": dict(kinds)}
     chk.cov["partA"] = {"expressions": len(exprs), "variants": nvariants, "disagreeing_expressions": len(bad_a)}
     chk.cov["partB"] = {"failing_constant_expressions": len(fails), "template_checks": nb}
     chk.cov["partC"] = {"expressions": len(lexprs), "engine_vs_model_disagreements": len(bad_c), "subexpression_folding_disagreements": len(bad_sub), "explained_by_folder_as_found": old_explains}
+    chk.cov["partD"] = {"expressions": len(dexprs), "forms": len(dmeta), "engine_vs_model_disagreements": len(bad_d)}
     chk.cov["kernel_crosscheck"] = {"cases": len(small), "agree": kern_ok}
-    chk.cov["printer_selftest"] = {"expressions": len(exprs) + 2 * len(lexprs), "parser_ast_differs": len(printer_bad)}
+    chk.cov["printer_selftest"] = {"expressions": len(exprs) + 2 * len(lexprs) + len(dmeta), "parser_ast_differs": len(printer_bad)}
     if printer_bad and not chk.violations:
         chk.violation("the parser reads a generated source differently from the generated AST (generator/printer defect)",
                       {"theorem_or_correspondence": "tools/props/C04.py::src vs compiler/parser.rs", "sources": printer_bad[:5]}, True)
